@@ -189,3 +189,50 @@ _more("C16", "Since round 3: full-tensor results are the unscaled Kelvin compone
 _more("C17", "Since round 3: polarity of the isotropic splits - the positive part is built from (Rp, projP) only - in plane stress, plane strain and 3-D (R17.7); the trace-sign selectors on concrete states (R17.8); Save_Iter commits are idempotent (R17.9).")
 _more("C18", "Since round 3: no memo of the step-start state (R18.8-R18.10).")
 _more("C19", "Since round 3: the multiplier column of the local Jacobian is the derivative of the residual with respect to dGamma for every row polynomial in it, with the state read at (committed + increment) on both sides (R19.11, polynomial identity over opaque leaves); Save_Iter commits are idempotent (R19.10).")
+
+# ---- third session, second part (DESIGN 7.8)
+_more("C01", "Since round 4: the stored beam frame (R10.8) and the Lagrange-multiplier rows with the faithful sparse vector of prescribed values and out-of-order dofs (R4.7) are shared with this property.")
+_more("C02", "Since round 4: Construct_local_matrix_system of Elastic, Thermal, PhaseField (both problems), InElastic and WeakForms interpreted over the degree-in-thickness domain: in 2-D every returned array carries the thickness exactly once for both truth values of every model flag (R2.10); the collinear-axis fallback of the beam frame (R10.8, repaired F51).")
+_more("C03", "Since round 4: the cached-pattern assembly is interpreted - the CSR returned by __Assemble_csr / __Get_csr_map equals the scatter-add of the element entries on two groups, with an absent slot, matrix and vector slots, repeated assembly (R3.9; the structural R3.3 / R3.5 are retired); a request for one problem's system leaves every other problem stale (R3.10).")
+_more("C04", "Since round 4: the orphan list is exactly the unreferenced node numbers below Nn, orphans at the back of the numbering included (R4.10, Mesh.__init__ interpreted); a LagrangeCondition hands the solver (s c, s value) with one common factor (R4.11); the Newton-Raphson driver (R5.11 shared).")
+_more("C05", "Since round 4: step sequencing solve -> corrector -> commit (R5.10) and the Newton-Raphson driver (R5.11) interpreted with scripted solvers; the parameters a scheme runs with are the documented ones - as given for newmark / hht / midpoint, beta = 1/4 (1 + alpha)^2 and gamma = 1/2 + alpha for hht_newmark (R5.12, table frozen from the AlgoType documentation).")
+_more("C06", "Since round 4: the evaluation path _Eval_Functions(N, Get_Local_Coords()) gives the identity for every element class, with the integer type numpy gives the node-coordinate tables of 11 classes modelled (a buffer that inherits it truncates) (R6.9).")
+_more("C07", "Since round 4: the geometric chain does not inherit an integer type from the node coordinates (R7.9, repaired F53: area 3.0 instead of 3.5); inDim is 3 / 2 / 1 by the non-zero z / y coordinates of either sign (R7.10).")
+_more("C08", "Since round 4: Rotate / Translate apply c + R (x - c) with the angle in radians and the matrix (not its transpose) (R8.13); the default candidate set of the point location holds the element containing each coordinate on stretched meshes, single-point queries (R8.14, repaired F46); Translate / Rotate / Symmetry / coord assignment move every element group and notify (R8.15, interpreted on recorder groups); the inverse-map residual on elements embedded in space (R8.8 variants).")
+_more("C09", "Since round 4: a point load with several unknowns pairs each value with the dof (node, unknown) it belongs to (R9.5); the beam shape-function matrix reproduces every admissible polynomial field row by row, ry = -w', rz = v' (R9.13).")
+_more("C10", "Since round 4: R9.7 and the notation / rotation rule R11.9 are shared with this property; the collinear fallback of the beam frame (R10.8, repaired F51).")
+_more("C11", "Since round 4: the axis guards of the law constructors give one verdict whatever the common length of the axes and for a pair and its mirror image, and the frame kept is the given one (R11.7, repaired F45); the notifier raises its own flag before notifying (R11.8); Voigt and Kelvin-Mandel input of the same material give the same law for axes at a generic angle, Get_Pmat / Apply_Pmat interpreted (R11.9). The syntactic 'axis assigned from Normalize(...)' test is retired (false alarm on F45).")
+_more("C12", "Since round 4: Det / Inv / Trace on stacks whose leading axes have the size of the matrices (R12.1); Transpose / Trace / Det / Inv handed a scalar or vector field never read the (Ne, nPg) axes as matrix axes (R12.9, repaired F47).")
+_more("C13", "Since round 4: forms whose integrand is a (Ne, nPg) field or a (Ne, nPg, 1) field in either kind of form, constant-left matrix products on vector fields (R13.8, 32 forms, repaired F48); Assemble interpreted with the modelled csr_matrix (R13.2).")
+_more("C14", "Since round 4: history committed by Save_Iter / restored by Set_Iter is re-initialised by the effective mesh setter of its class (R14.19, repaired F49); notification last (R14.20); per-problem memo interpreted (R14.21); Set_Iter across meshes for every order of visits (R14.22); a store outside the guard of the invalidation, guard on the new value alone (R14.3b path-sensitive); mesh motions on recorder groups (R14.4m replaces the textual loop test); snapshots of observed parameters (R14.18, known finding F42).")
+_more("C15", "Since round 4: Set_Iter passes an array for every field of the running time scheme - the stored one or zeros - so no live field survives a restore (R15.14); paths recorded at write time are resolved against the folder of the write (R15.13, known finding F43).")
+_more("C16", "Since round 4: beam strain results are the generalised strains conjugate to N / Mx / My / Mz, unscaled (R16.13, repaired F52); the node-element incidence matrix stacks the groups in the order the element results are numbered (R16.14); zero time step reaching a division (R16.12, known finding F44).")
+_more("C17", "Since round 4: Sigma+- == c+- : eps entry by entry for non-symmetric split stiffnesses (R17.10); no call site inside the simulation classes asks Set_Iter for the history reset (R17.11).")
+_more("C18", "Since round 4: EVERY non-linear element operator is interpreted end to end on one symbolic element through the repository's own kinematics, FeArray algebra and dof reordering with a generic polynomial stored energy: residual == d(energy)/dU, tangent == d(residual)/dU under the documented coefK convention (SecondPiolaKirchhoff, ActiveStress, KelvinVoigt with damping == d(residual)/dV, TimeQuadrature for two coefK, Gonzalez with residual . du == Delta W), 2-D symbolic and 3-D along coordinate lines (R18.12); follower pressure and penalty contact against their surface integrals, partly penetrating element (R18.13); Green-Lagrange kinematics De / Deta as polynomial identities (R18.11); the Clenshaw-Curtis rule itself in exact arithmetic for 1..7 points (R18.15); mutators of the state a decorator-memoised method reads clear the memo (R18.14, repaired F50).")
+_more("C19", "Since round 4: a function given dt passes it to every callee that takes dt (R19.14); in a convergence loop the committed state handed to Integrate is loop-invariant (R19.15); zero dt reaching a division (R19.13, known finding F44); snapshot of the elastic law in Behavior (R19.12, known finding F42); the internal variables do not survive a mesh replacement (R14.19, repaired F49).")
+_more("C20", "Since round 4: the save / load round trip distinguishes the owned nodes from the nodes of the part (R20.8 stub completed).")
+
+# techniques as of DESIGN 7.8 (the deciding methods actually used)
+def _tech(pid, text):
+    CHECKS[pid]["technique"] = text
+
+
+_tech("C01", "exact polynomial / rational-function normal forms of the interpreted source (abstract interpretation of table, index and chain code); interpretation on recorder stubs (beam frame, multiplier system); syntax-directed rules for tolerance-gated control flow and group loops")
+_tech("C02", "interpretation of operator code on symbolic element data; exact rank over Q / Q(sqrt d); table folding of Gauss_factory; abstract interpretation of the element systems over the degree-in-thickness domain, both truth values of every flag")
+_tech("C03", "interpretation of the assembly on symbolic element entries with a modelled csr_matrix (scatter-add compared entry by entry); label / symbolic-index interpretation; copy-out and group-loop effect rules")
+_tech("C04", "abstract interpretation over block selectors and mask/complement domain; interpretation on recorder stubs (multiplier rows, Newton driver, orphan detection, Lagrange condition); must-pass-through; enum exhaustiveness; unused-result rule")
+_tech("C05", "AST -> linear forms with rational-function coefficients, identity by normal form; interpretation of the step / Newton drivers with scripted solvers; memo-coverage dataflow; frozen parameter table for the documented schemes")
+_tech("C06", "AST -> exact polynomial normal form (abstract interpretation of table code); interpretation of the evaluator with integer-kind arrays modelled (truncation on store)")
+_tech("C07", "exact evaluation of tables in Q / Q(sqrt d); constant folding of the factory; polynomial support analysis of det J; interpretation of the geometric chain with integer-kind coordinates; setter-discipline path rules")
+_tech("C08", "exact rational geometry on interpreted tables; polynomial identities with triangular reduction; interpretation on recorder groups (mesh motions) and with an exact KD-tree (candidate sets); residual slices of the inverse map on plane and embedded elements")
+_tech("C09", "label / symbolic interpretation of the integrator and dispatch code; interpretation of the beam N matrix on a symbolic element (reproduction of admissible polynomial fields); alias / group-loop effect rules")
+_tech("C10", "interpretation of frame / change-of-basis code on symbolic and exact rational axes; polynomial identities; memo-coverage dataflow")
+_tech("C11", "AST -> rational functions, identity by cross-multiplication; differential interpretation for flag influence; interpretation of constructors and of the rotated law on exact rational axes; typestate and notification-order rules")
+_tech("C13", "interpretation of the repository's Field / FeArray / form classes on symbolic data compared with per-point reference semantics; interpretation of Assemble with a modelled csr_matrix; flag-pair and shared-buffer effect rules")
+_tech("C14", "effect analysis (attribute stores / reads) + call-graph reachability of invalidators, path-sensitive for setters and mutators; interpretation on recorder stubs (mesh setter, Set_Iter walks, per-problem memos, mesh motions); memo-coverage and snapshot dataflow")
+_tech("C15", "interpretation of save / load / restore code on recorder stubs (round trips, restored fields, mesh index); writer/reader key agreement; alias and memo-coverage dataflow")
+_tech("C16", "finite-domain constant folding of string dispatch tables + label / symbolic interpretation of Result; polynomial identity for von Mises; storage-location and zero-argument constant propagation")
+_tech("C17", "interpretation in a non-commutative polynomial algebra; interpretation under the FeArray protocol model (stress parts); mask-rank dataflow; writer sets and who-may-call rules")
+_tech("C18", "AST -> symbolic expressions, derivative identities by normal form (laws, invariants); end-to-end interpretation of every non-linear operator on a symbolic element with polynomial differentiation (residual / tangent / damping identities); exact trigonometry for the Clenshaw-Curtis rule; memo-mutator dataflow")
+_tech("C19", "call-graph reachability + effect analysis + interprocedural alias / in-place analysis; polynomial identities over opaque leaves (local Jacobian); parameter-threading and loop-invariance dataflow")
+_tech("C20", "interpretation of partition, ownership and save / load code on recorder stubs and overlapping groups; provenance rules over the reduction code")
